@@ -253,6 +253,39 @@ theorem shutdown_completes {s : Sys} (hr : Reachable s) (hc : s.cpc ≠ .idle) :
         · simp only [List.length_cons]; omega
         · simp [run, hs, h3]
 
+/-! ### the upstream phase is insensitive to shutdown
+
+The model has no step that abandons a round trip or a response write: trace validation therefore
+rejects any run of the real proxy in which the round trip of a started exchange ends without the
+origin's response (event `rtx`, e.g. because the request's context was cancelled at shutdown). -/
+
+/-- While an exchange is in the upstream round trip, the only move of its handler is the return of
+the round trip with the origin's response; the move and its result do not depend on `closing`, on
+`connsMu` or on whether `Close` has returned. -/
+theorem round_trip_ends_only_with_origin_response {c m r : Bool} {h h' : Handler} {l : HL}
+    (hp : h.pc = .inRoundTrip) (hs : hstep c m r h l = some h') :
+    ∃ rc, l = .rtEnd rc ∧ h' = { h with pc := .postRoundTrip, resClose := rc } ∧
+      ∀ c' m' r', hstep c' m' r' h l = some h' := by
+  cases l <;> simp [hstep, hp, Pc.readable] at hs
+  case rtEnd rc => exact ⟨rc, rfl, hs.symm, fun _ _ _ => by simp [hstep, hp, hs]⟩
+
+/-- While a response is being written, the only move of its handler is the completion of the write
+(the response is counted as completely written), whatever the shutdown state. -/
+theorem response_write_ends_only_complete {c m r b : Bool} {h h' : Handler} {l : HL}
+    (hp : h.pc = .writing b) (hs : hstep c m r h l = some h') :
+    l = .writeEnd ∧ h'.completed = h.completed + 1 ∧ h'.started = h.started ∧
+      ∀ c' m' r', hstep c' m' r' h l = some h' := by
+  cases l <;> simp [hstep, hp, Pc.readable] at hs
+  case writeEnd => subst hs; exact ⟨rfl, rfl, rfl, fun _ _ _ => by simp [hstep, hp]⟩
+
+/-- In every state (shutdown requested or not) the return of a pending round trip is enabled and
+changes nothing but that handler's position. -/
+theorem round_trip_return_enabled_during_shutdown {s : Sys} {k : Nat} {h : Handler}
+    (hk : s.hs[k]? = some h) (hp : h.pc = .inRoundTrip) (rc : Bool) :
+    ∃ s', step s (.h k (.rtEnd rc)) = some s' ∧ s'.closing = s.closing ∧ s'.wg = s.wg ∧
+      s'.cpc = s.cpc ∧ s'.hs = s.hs.set k { h with pc := .postRoundTrip, resClose := rc } := by
+  simp [step, hk, hstep, hp, HL.wgAfter]
+
 /-! ### non-vacuity: the hypotheses above are satisfiable, the parked states are reachable -/
 
 /-- A run in which `Close` is called while connection 0 is parked inside its request modifier and
